@@ -7,6 +7,7 @@
 From Coq Require Import List ZArith Bool.
 Import ListNotations.
 From V Require Import Base.Bytes Base.Iface Gen.HtmlTemplates.
+From V Require C14.Model.   (* the form handler, for pages served after a saved form *)
 Local Open Scope Z_scope.
 
 (* ---------- C strings inside a byte image ---------- *)
@@ -202,30 +203,53 @@ Definition set_state (old msg : list Z) : list Z :=
 (* ---------- wire ---------- *)
 Definition HOST_CHAR_SIGNED : bool := negb (CHAR_IS_SIGNED =? 0).
 
-Record st := { cfgA : list Z; cfgB : list Z; s_name : list Z; s_mac : list Z; s_add : list Z; s_state : list Z }.
+Record st := { cfgA : list Z; cfgB : list Z; s_name : list Z; s_mac : list Z; s_add : list Z; s_state : list Z; s_reqb : list Z }.
 Definition init : st :=
-  {| cfgA := zeros CFG_SIZE; cfgB := zeros CFG_SIZE; s_name := []; s_mac := zeros 6; s_add := []; s_state := [] |}.
+  {| cfgA := zeros CFG_SIZE; cfgB := zeros CFG_SIZE; s_name := []; s_mac := zeros 6; s_add := []; s_state := []; s_reqb := [] |}.
 Definition fit (n : Z) (l : list Z) : list Z := take n (l ++ zeros n).
+Definition upd_st (s : st) (a b nm mc ad stt rq : list Z) : st :=
+  {| cfgA := a; cfgB := b; s_name := nm; s_mac := mc; s_add := ad; s_state := stt; s_reqb := rq |}.
 
 Definition out_page (k : Z) (s : st) (c : list Z) (v d : Z) : wire :=
   let e := {| cfg := c; name := cstr (s_name s); mac := s_mac s; state := s_state s; ds := d |} in
   let '(n, tr, html) := page HOST_CHAR_SIGNED v e (cstr (s_add s)) in
   mk k [v; d; n; tr] (http_ok HOST_CHAR_SIGNED e html).
 
+(* POST of a form on a fresh connection through supla_esp_recv_callback (the repaired handler of C14/Model.v):
+   the configuration that is stored afterwards and whether it was saved *)
+Definition post_form (c req : list Z) : list Z * bool :=
+  let '(d, r) := C14.Model.recv C14.Model.FIXED HOST_CHAR_SIGNED
+                   {| C14.Model.dcfg := c; C14.Model.dcmd := None; C14.Model.dpv := C14.Model.pv0 |} req in
+  (C14.Model.dcfg d, C14.Model.saved r).
+(* the response to the POST: the natively linked (MQTT) page with "Data saved" on the stored configuration, or nothing *)
+Definition out_form (k : Z) (s : st) (c : list Z) (sv : bool) : wire :=
+  if sv then
+    let e := {| cfg := c; name := cstr (s_name s); mac := s_mac s; state := s_state s; ds := 1 |} in
+    let '(n, tr, html) := page HOST_CHAR_SIGNED 6 e (cstr (s_add s)) in
+    mk k [1; n; tr] (http_ok HOST_CHAR_SIGNED e html)
+  else mk k [0; -1; 0] [].
+
 Definition step (s : st) (w : wire) : st * list wire :=
   let '(k, a, b) := w in
-  if k =? 0 then ({| cfgA := fit CFG_SIZE b; cfgB := cfgB s; s_name := s_name s; s_mac := s_mac s; s_add := s_add s; s_state := s_state s |}, [])
-  else if k =? 1 then ({| cfgA := cfgA s; cfgB := fit CFG_SIZE b; s_name := s_name s; s_mac := s_mac s; s_add := s_add s; s_state := s_state s |}, [])
-  else if k =? 2 then ({| cfgA := cfgA s; cfgB := cfgB s; s_name := take 24 b; s_mac := s_mac s; s_add := s_add s; s_state := s_state s |}, [])
-  else if k =? 3 then ({| cfgA := cfgA s; cfgB := cfgB s; s_name := s_name s; s_mac := fit 6 b; s_add := s_add s; s_state := s_state s |}, [])
-  else if k =? 4 then ({| cfgA := cfgA s; cfgB := cfgB s; s_name := s_name s; s_mac := s_mac s; s_add := b; s_state := s_state s |}, [])
-  else if k =? 5 then ({| cfgA := cfgA s; cfgB := cfgB s; s_name := s_name s; s_mac := s_mac s; s_add := s_add s; s_state := set_state (s_state s) b |}, [])
+  let A := cfgA s in let B := cfgB s in let nm := s_name s in let mc := s_mac s in
+  let ad := s_add s in let stt := s_state s in let rq := s_reqb s in
+  if k =? 0 then (upd_st s (fit CFG_SIZE b) B nm mc ad stt rq, [])
+  else if k =? 1 then (upd_st s A (fit CFG_SIZE b) nm mc ad stt rq, [])
+  else if k =? 2 then (upd_st s A B (take 24 b) mc ad stt rq, [])
+  else if k =? 3 then (upd_st s A B nm (fit 6 b) ad stt rq, [])
+  else if k =? 4 then (upd_st s A B nm mc b stt rq, [])
+  else if k =? 5 then (upd_st s A B nm mc ad (set_state stt b) rq, [])
   else if k =? 6 then
     let v := nth 0 a 0 in let d := nth 1 a 0 in
-    (s, [out_page 0 s (cfgA s) v d; out_page 1 s (cfgB s) v d])
+    (s, [out_page 0 s A v d; out_page 1 s B v d])
   else if k =? 7 then
     (* GET through supla_esp_recv_callback: natively linked page (MQTT), data_saved = 0 *)
-    (s, [out_page 2 s (cfgA s) 6 0])
+    (s, [out_page 2 s A 6 0])
+  else if k =? 8 then (upd_st s A B nm mc ad stt b, [])
+  else if k =? 9 then
+    let '(A', svA) := post_form A b in
+    let '(B', svB) := post_form B rq in
+    (upd_st s A' B' nm mc ad stt rq, [out_form 3 s A' svA; mk 5 [] A'; out_form 4 s B' svB; mk 6 [] B'])
   else (s, []).
 
 Fixpoint run (s : st) (ws : list wire) : list wire :=
